@@ -530,6 +530,9 @@ func (e *explorer[T, A]) checkBulk(chain []Op, w *world[T, A]) bool {
 		bops := []bop{
 			{"AddToArray", func(d, s A) { e.be.AddTo(d, s) }, func(d, s T) T { return d + s }},
 			{"ScaleArray", func(d, s A) { e.be.Scale(d, s, T(3)) }, func(d, s T) T { return s * T(3) }},
+			{"ScaleArray(1)", func(d, s A) { e.be.Scale(d, s, T(1)) }, func(d, s T) T { return s }}, // neutral factors still copy source to destination
+			{"ScaleArray(0)", func(d, s A) { e.be.Scale(d, s, T(0)) }, func(d, s T) T { return T(0) }},
+			{"ApplyFunc1(identity)", func(d, s A) { e.be.Func1(d, s, func(x T) T { return x }) }, func(d, s T) T { return s }},
 			{"ApplyFunc1", func(d, s A) { e.be.Func1(d, s, func(x T) T { return x + T(5) }) }, func(d, s T) T { return s + T(5) }},
 		}
 		for _, bo := range bops {
